@@ -29,7 +29,7 @@ Streams == CASE Tier = "quick" -> QuickStreams [] Tier = "tiny" -> TinyStreams [
 
 Case(iface, code, form, method, text, data, media, st, sse, cl, ct, fk, fa) ==
     [iface |-> iface, code |-> code, form |-> form, method |-> method, text |-> text, data |-> data,
-     media |-> media, stream |-> st[1], chunks |-> st[2], sse |-> sse, cl |-> cl, ct |-> ct, fk |-> fk, fa |-> fa]
+     media |-> media, stream |-> st[1], chunks |-> st[2], sse |-> sse, cl |-> cl, ct |-> ct, fk |-> fk, fa |-> fa, err |-> -1]
 
 (* sends a fault-free emission makes (the response start is send 0) *)
 NSends(b) ==
@@ -42,7 +42,8 @@ NSends(b) ==
    explored for the plain-header, int-status cases only *)
 FaultBase(b) == b.form = "int" /\ b.cl = -1 /\ ~b.ct
 (* a render-phase fault does interact with preset headers and with every body source: it is
-   scheduled for every int-status case (quick tier: two status codes) *)
+   scheduled for every int-status case (quick tier: two status codes), with the second rendering
+   succeeding (fa = 1) and raising too (fa = 2) *)
 RenderBase(b) == b.form = "int" /\ (Tier = "quick" => b.code \in {200, 204})
 (* the fault points of a case: none; every read of a stream / emitter that is really iterated
    (the read that reports exhaustion included); every send *)
@@ -60,7 +61,7 @@ MCInit ==
        IN  /\ (Tier = "quick" /\ sse >= 0) => st[1] = "none"          \* quick tier: thinner cross product
            /\ (Tier = "quick" /\ iface = "wsgifw") => st[1] = "file"
            /\ \E f \in (IF FaultBase(b) THEN FaultsOf(b) ELSE {<<"none", 0>>})
-                        \cup (IF RenderBase(b) THEN {<<"render", 0>>} ELSE {}) : Start([b EXCEPT !.fk = f[1], !.fa = f[2]])
+                        \cup (IF RenderBase(b) THEN {<<"render", 1>>, <<"render", 2>>} ELSE {}) : Start([b EXCEPT !.fk = f[1], !.fa = f[2]])
 
 (* the disjuncts of ResponseEmit!Next are operator names, so TLC's coverage is per emission step *)
 MCNext == Next
